@@ -321,9 +321,21 @@ impl Lexer {
     /// If the next char is a [DOUBLE_QUOTE] tries to interpret anything until the next  [DOUBLE_QUOTE] as an identifier.
     /// Single-char tokens are pretty easy to peek any other way.
     pub fn next_token(&mut self) -> Token {
+        // A loop, not recursion: comments, lone `|` and characters the lexer does not know are
+        // skipped, and a long run of them must not cost one stack frame each.
+        loop {
+            if let Some(token) = self.scan_token() {
+                return token;
+            }
+        }
+    }
+
+    /// Scans one token; `None` means that something without a token of its own (a comment, a lone
+    /// `|`, an unknown character) was skipped and scanning has to go on.
+    fn scan_token(&mut self) -> Option<Token> {
         self.skip_whitespace();
 
-        match self.current_char {
+        Some(match self.current_char {
             None => Token::Eof,
             Some(ESCAPE_QUOTE) => Token::StringLiteral(self.read_string()),
             Some(DOUBLE_QUOTE) => {
@@ -419,7 +431,7 @@ impl Lexer {
                         }
                         self.advance();
                     }
-                    self.next_token()
+                    return None;
                 } else {
                     Token::Minus
                 }
@@ -439,14 +451,14 @@ impl Lexer {
                     Token::Concat
                 } else {
                     // Single | is not a valid SQL operator, treat as unknown
-                    self.next_token()
+                    return None;
                 }
             }
             _ => {
                 self.advance();
-                self.next_token()
+                return None;
             }
-        }
+        })
     }
 
     /// Peek the next token, without advancing the cursor.
